@@ -841,7 +841,7 @@ func Run(c *hx.Ctx) {
 		doHistory(c, h, "scripted")
 	}
 	g := &gen_{c: c}
-	n := c.N(1500, 15000)
+	n := c.N(1000, 12000)
 	for i := 0; i < n; i++ {
 		doHistory(c, g.history(), "random")
 	}
